@@ -17,7 +17,7 @@ import time
 
 VERIF = os.path.dirname(os.path.dirname(os.path.abspath(__file__)))
 FLAKY = {"create_dir_creates_an_empty_directory", "create_file_creates_a_file_we_can_write_to_and_read_from", "remove_file_removes_a_file"}
-PROPS = ["C01", "C02", "C03", "C05", "C06", "C07", "C08", "C09", "C10", "C11", "C12", "C13", "C14", "C15", "C16", "C17"]
+PROPS = ["C01", "C02", "C03", "C04", "C05", "C06", "C07", "C08", "C09", "C10", "C11", "C12", "C13", "C14", "C15", "C16", "C17"]
 
 
 def sh(cmd, cwd=None, timeout=1800):
@@ -43,7 +43,8 @@ def main():
     diff = os.path.abspath(diff)
     meta = {"seed_id": sid, "breaks_property": prop, "needs_to_manifest": needs, "source": "independent sub-agent given only the property text and a scratch worktree",
             "confirmed_at": time.strftime("%Y-%m-%dT%H:%M:%SZ", time.gmtime()), "ran": []}
-    demo_tests = [f[:-3] for f in os.listdir(demo) if f.endswith(".rs")]
+    demo_tests = [f[:-3] for f in os.listdir(demo) if f.endswith(".rs") and os.path.exists(os.path.join(wt, "tests", f))]
+    meta["demo_tests_run"] = demo_tests
     sh("git checkout -- src", cwd=wt)
     rc, out = sh("git apply --check %s" % diff, cwd=wt)
     if rc != 0:
